@@ -47,6 +47,8 @@ func propC19(w *World, r *Report) {
 	RunPrinterKeywords(w, r, []string{"opentype/gtab/builder.ExplainGsub", "opentype/gtab/builder.ExplainGpos"}, "opentype/gtab/builder.Parse")
 	r.Floor("keywords", 8)
 	RunRangeStart(w, r, fns)
+	RunRangeForm(w, r)
+	RunQuoteEscape(w, r, []string{"opentype/gtab/builder.ExplainGsub", "opentype/gtab/builder.ExplainGpos"})
 	for _, a := range boundsAssumptions {
 		r.Assumes(a)
 	}
